@@ -60,6 +60,8 @@ def run(ctx):
     ctx.rule("R02.y", "validators change nothing: no function reachable from any Parameter type's _validate stores into a slot of the Parameter (self.<slot> = ..., in-place mutation of "
                       "self.<slot>) or calls a state-changing method of it (update / compute_default / _update_state); frozen exclusion: Selector._ensure_value_is_in_objects, the documented "
                       "auto-append of check_on_set=False (known finding R18.f)", floor=30)
+    ctx.rule("R02.p", "the post-store hook cannot reject: no _post_setter override, nor any method of the same Parameter type it calls on itself (transitively, generators included), contains a "
+                      "raise statement -- the hook runs after the value was stored, so a rejection raised there leaves the value (and, for Composite, the constituents already assigned) behind", floor=2)
     ctx.rule("R02.m", "setter model: Parameter.__set__ interpreted abstractly on every combination (576) of route x constant/readonly x validation outcome x identity x reference mode x watchers x batching agrees with the specification of this property (see checks/setter_model.py)", floor=1)
     ctx.rule("R02.u", "update model: Parameters._update interpreted abstractly (entry batching flag x key orders incl. an Event key x a rejected or unknown key at every position x a value identical to the current one, 60 cases): flag restored, flush exactly once iff outermost and after the restore, keys applied in order up to the failing one, Event mode and reset, complete previous-values mapping", floor=1)
     ctx.not_decided += ["that callees are effect-free before their own raises (Composite._post_setter assigns constituents one by one)",
@@ -205,6 +207,29 @@ def run(ctx):
 
     from checks.shared import event_model
     event_model(ctx, "R02.e", "C02")
+    # R02.p: post-store hooks do not reject
+    posts = [g for g in ctx.repo.funcs.values() if g.name == "_post_setter" and g.cls is not None]
+    ctx.require(len(posts) >= 2, "fewer than 2 _post_setter definitions found")
+    for g in posts:
+        seen, todo, hit = {g.qualname}, [g], None
+        while todo and hit is None:
+            h = todo.pop()
+            for n in ast.walk(h.node):
+                if isinstance(n, ast.Raise):
+                    hit = (h, n)
+                    break
+                if isinstance(n, ast.Call) and isinstance(n.func, ast.Attribute) and isinstance(n.func.value, ast.Name) and h.params and n.func.value.id == h.params[0]:
+                    t = ctx.hier.resolve(g.cls.qualname, n.func.attr)
+                    if t is not None and t.qualname not in seen and not n.func.attr.startswith("__"):
+                        seen.add(t.qualname)
+                        todo.append(t)
+        if hit is None:
+            ctx.ok("R02.p", g, g.node, "%s and the %d method(s) it calls on itself never raise explicitly" % (g.qualname.split("parameter")[-1].lstrip("s."), len(seen) - 1))
+        else:
+            h, n = hit
+            ctx.fail("R02.p", h, n, "%s (run after the value was stored%s) rejects the assignment: `%s` -- the stored value, and whatever the hook already did, stay behind" % (
+                g.qualname, "" if h is g else ", through %s" % h.name, ast.unparse(n)[:80]), key="%s::post-setter-rejects::%s" % (g.qualname, h.name))
+
     # model-level rule, run last (see DESIGN §10)
     from checks import setter_model
     setter_model.report(ctx, "C02", "R02.m")
